@@ -273,9 +273,10 @@ Definition wb_deq (s : ringst) : ringst * option msg :=
     end
   else (s, None).
 
-Definition wb_model (cap : Z) : mbmodel :=
-  {| mstate := ringst; minit := ring_init (nextPowerOfTwo cap); menq := wb_enq; mdeq := wb_deq;
+Definition wb_ring_model (size : Z) : mbmodel :=
+  {| mstate := ringst; minit := ring_init size; menq := wb_enq; mdeq := wb_deq;
      mlen := ring_len; mempty := fun s => ring_len s =? 0 |}.
+Definition wb_model (cap : Z) : mbmodel := wb_ring_model (nextPowerOfTwo cap).
 
 (* ------------------------------------------------------------------------------------------ *)
 (* binary heap on a slice: container/heap up/down and stableHeap.up/down are the same loops *)
